@@ -57,6 +57,7 @@ def run_case(case, ctx):
     if rng.random() < 0.03:
         # id products that overflow 16 bits: many templates, uint16 ids, curated clusters
         opts.update(nt=300, ns=900, dtype_ids='uint16', clusters='curated', features='none')
+    opts['wmi_only'] = bool(opts['wm'] and rng.random() < 0.25)      # only whitening_mat_inv.npy is shipped
     if case.get('large'):
         opts.update(ns=[100001, 120000, 150000][case['seed'][1] % 3], n_samples=2000000, features=['sparse', 'dense'][case['seed'][1] % 2],
                     clusters='same', nt=4, nc=6)
@@ -145,6 +146,14 @@ def _check(m, spec, desc, ctx, f0, factor):
             dd = same(phys, expp, dtype=False, rtol=1e-4, atol=1e-5 * max(1e-30, float(np.nanmax(np.abs(expp))) if np.isfinite(expp).any() else 1))
             if dd:
                 V('amplitude_mismatch', 'use=%s rescaled waveforms: %s' % (use, dd), **fu)
+    # aliasing: the caller modifies returned arrays in place (e.g. converts peak channels to raw channel numbers);
+    # later requests on the same model must not be affected (everything below is read afterwards)
+    for getter in (lambda: m.templates_channels, lambda: m.clusters_channels, lambda: m.templates_waveforms_durations,
+                   lambda: m.clusters_amplitudes, lambda: m.get_amplitudes_true(sample2unit=factor, use='templates')[1]):
+        rg = call(getter)
+        if rg.ok and isinstance(rg.value, np.ndarray) and rg.value.flags.writeable and rg.value.size:
+            rg.value[...] = rg.value[::-1].copy() + 3 if rg.value.ndim == 1 else rg.value * 0
+            ctx.mon('returned_array_modified')
     # mean stored amplitudes over ids present
     for name, spikes in (('templates_amplitudes', st), ('clusters_amplitudes', sc)):
         r = call(lambda: getattr(m, name))
